@@ -79,6 +79,16 @@ func c16Walk(b []byte) c16Frame {
 	return f
 }
 
+// c16BufLen: natively the exact frame size; under the engine (where the
+// sample loops are cut and only the length check reads it) the largest size
+// any choice of dimensions needs, so that the length is concrete.
+func c16BufLen(exact, c int) int {
+	if vrt.Symbolic() {
+		return 65535 * c * 2
+	}
+	return exact
+}
+
 // c16Dims: one dimension over the whole 16-bit range (needs both bytes of the
 // field), the other small, so that the native replay stays small.
 func c16Dims() (int, int) {
@@ -96,7 +106,7 @@ func VerifC16Header() {
 	w, h := c16Dims()
 	c := []int{1, 3}[vrt.Choice("c", 0, 1)]
 	q := vrt.Int("q", 1, 100)
-	px := make([]byte, w*h*c)
+	px := make([]byte, c16BufLen(w*h*c, c))
 	if vrt.Symbolic() {
 		vrt.StubWith("(*"+blPkg+".Encoder).optimizeHuffmanTables", func(enc *Encoder, p []byte) error { return nil })
 		vrt.StubWith("(*"+blPkg+".Encoder).encodeScan", func(enc *Encoder, wr *standard.Writer, p []byte) error { return nil })
@@ -111,5 +121,5 @@ func VerifC16Header() {
 	vrt.Assert(f.sofMarker == 0xC0, "C16 frame header is SOF0")
 	vrt.Assert(f.w == w && f.h == h, "C16 frame header declares the given width and height (both bytes)")
 	vrt.Assert(f.comp == c && f.precision == 8, "C16 frame header declares the given component count and precision 8")
-	vrt.Out("len", len(s))
+	vrt.Out("w", f.w)
 }
